@@ -37,8 +37,9 @@ pub fn builtin_get(
 		};
 		default.evaluate()
 	};
-	// Happy path for invisible fields
-	if !inc_hidden && !o.has_field_ex(f.clone(), false) {
+	// An absent (or, without inc_hidden, invisible) field yields the default without
+	// touching the object any further: `if std.objectHasEx(o, f, inc_hidden) then o[f] else default`.
+	if !o.has_field_ex(f.clone(), inc_hidden) {
 		return do_default();
 	}
 	let Some(v) = o.get(f)? else {
